@@ -277,7 +277,7 @@ def replay(ctx, obj):
 
 
 CHECK = core.Check(
-    'C09', sc.CLUSTER, 'Props/C09.v', translate=sc.translate, correspond=correspond, oracle=oracle, replay=replay,
+    'C09', sc.CLUSTER, ['Props/C09.v', 'Props/C09H.v'], translate=sc.translate, correspond=correspond, oracle=oracle, replay=replay,
     deps=('lib',),
     rule='from an established IKE_SA with one CHILD_SA: one trigger per endpoint out of {acquire, soft expire, hard '
          'expire, IKE_SA rekey, IKE_SA delete, DPD, none}; exhaustive enumeration (depth-bounded, by re-execution) of the '
